@@ -13,8 +13,9 @@ import xml.etree.ElementTree as ET
 
 import lxml.etree as LX
 
-ELEM = {'ea': 'a', 'eb': 'b'}
-ATTR = {'xa': 'a', 'xc': 'c'}
+NS = {'p': 'urn:x', 'q': 'urn:x-y'}    # prefixes bound by the caller; urn:x is a string prefix of urn:x-y on purpose
+ELEM = {'ea': 'a', 'eb': 'b', 'en': '{urn:x}a', 'em': '{urn:x-y}a'}
+ATTR = {'xa': 'a', 'xc': 'c', 'xn': '{urn:x}a'}
 
 
 class Doc:
